@@ -56,3 +56,10 @@ impl<T> Context<T> for ::std::result::Result<T, cln_rpc::RpcError> {
         ensures self is Ok ==> r == Ok::<T, AnyErr>(self->Ok_0), self is Err ==> r is Err
     { unimplemented!() }
 }
+pub trait WithContext<T>: Sized { fn with_context<C, G: FnOnce() -> C>(self, f: G) -> (r: anyhow::Result<T>); }
+impl<T> WithContext<T> for ::std::result::Result<T, cln_rpc::RpcError> {
+    #[verifier::external_body]
+    fn with_context<C, G: FnOnce() -> C>(self, f: G) -> (r: anyhow::Result<T>)
+        ensures self is Ok ==> r == Ok::<T, AnyErr>(self->Ok_0), self is Err ==> r is Err
+    { unimplemented!() }
+}
